@@ -309,12 +309,12 @@ type xmlm struct {
 }
 
 type xField struct {
-	Index   int
-	Name    string   // local name to match (first path element for elements)
-	Path    []string // remaining path below Name
-	NS      string   // required namespace ("" = any)
-	Kind    string   // "attr", "chardata", "innerxml", "element", "skip", "xmlname", "any"
-	Type    types.Type
+	Index int
+	Name  string   // local name to match (first path element for elements)
+	Path  []string // remaining path below Name
+	NS    string   // required namespace ("" = any)
+	Kind  string   // "attr", "chardata", "innerxml", "element", "skip", "xmlname", "any"
+	Type  types.Type
 }
 
 func parseXMLTag(f *types.Var, tag string) xField {
